@@ -46,6 +46,7 @@ from ..ir import (
     List,
     Map,
     Nullable,
+    Primitive,
     Omitted,
     Preview,
     ParameterError,
@@ -993,6 +994,23 @@ class IRGenerator:
                     if not (field._ast_node.type_ref.nullable and default_value is None):
                         # Verify that the type of the default value is correct for this field
                         try:
+                            target_type, _ = unwrap_aliases(field.data_type)
+                            if not isinstance(target_type, (Primitive, Union)):
+                                raise ValueError(
+                                    'a field of type %s cannot have a default' %
+                                    target_type.name)
+                            if isinstance(target_type, Union) and \
+                                    not isinstance(default_value, TagRef):
+                                raise ValueError(
+                                    'the default of a union must be one of its tags')
+                            if default_value is None or \
+                                    (isinstance(default_value, TagRef) and
+                                     not isinstance(target_type, Union)):
+                                raise ValueError(
+                                    '%s is not a valid default for type %s' %
+                                    ('null' if default_value is None
+                                     else default_value.tag_name,
+                                     target_type.name))
                             if field.data_type.name in ('Float32', 'Float64'):
                                 # You can assign int to the default value of float type
                                 # However float type should always have default value in float
